@@ -142,6 +142,16 @@ def cast(ctx) -> None:
     params = [p for p in fn.param_names if p not in ('self', 'cls')]
     if params != ['expected', 'actual', 'data']:
         raise core.AnalysisError(f'_cast signature changed: {params}')
+    # the cast itself is a function of (kind, value *including its python type*): a value-keyed memo conflates
+    # 1 == 1.0 == True (equal and hash-equal), so the first one cast decides the result served for the others
+    ncast = 0
+    for kfn in prog.functions([m for m in prog.modules if m == 'forml.io.dsl._struct.kind']):
+        if kfn.name != 'cast':
+            continue
+        ncast += 1
+        memo = [d for d in core.decorator_names(kfn.node) if d.split('.')[-1] in ('lru_cache', 'cache')]
+        ctx.check(not memo, 'C15.order', kfn, 'kind.cast is not memoised by the value (equal values of different python types - 1, 1.0, True - must each be cast on their own)', kfn.node, key=f'cast:memo:{kfn.qual}')
+    ctx.floor('C15.order/kind-cast', ncast, 1)
     tags = {'expected': 'Q', 'data': 'Q', 'actual': 'E'}
     zips = [c for c in core.calls_in(fn.node) if core.call_name(c) in ('zip', 'itertools.zip_longest')]
     ctx.check(bool(zips), 'C15.order', fn, 'columns are paired with their expected field', fn.node, key='cast:zip')
